@@ -24,6 +24,10 @@ RUN_STEP_BUDGET = 600000
 def r_hp(rng, maxdeg):
     if rng.random() < 0.05:
         return rng.choice([2.5e-05, -2.5e-05, 5e-06, 0.0])      # HP values below one arc-second
+    if rng.random() < 0.08:
+        # HP corner values: whole degrees / minutes, just below a whole degree or minute, between 0 and -1 degree
+        d = rng.randrange(0, maxdeg)
+        return rng.choice([float(d), d + 0.3, d + 0.5959, d + 0.59599999, d + 0.2959999, -0.3, -0.0001, -(d + 0.5959999), d + 0.0001])
     d = rng.randrange(0, maxdeg + 1)
     m = rng.randrange(0, 60)
     s = round(rng.uniform(0, 59.9999), rng.choice([0, 1, 3, 4]))
